@@ -270,7 +270,7 @@ def monitor(ops, outs):
                 bad.append("info-implicit-final: handler sent 1xx %s and then its body without a final WriteHeader behind a Buffer: body %s, client got %s" % (sc["info"], want_body, kv["body"]))
             else:
                 bad.append("transparent: handler body %s, client got %s" % (want_body, kv["body"]))
-        want_h = [(k, v) for k, v in sc["hdrs"] if k not in SKIP_HDR] + [("X-Req-Len", str(blen))]
+        want_h = [(k, v) for k, v in sc["hdrs"] if k not in SKIP_HDR] + [("X-Req-Len", str(blen)), ("X-Req-Cred", "Bearer-c20/Basic-c20p/c20")]
         cookies = ["sk%d=http://b0;_Path=/" % i for i, lay in enumerate(stack) if lay["sticky"] and lay["kind"] in ("roundrobin", "rebalancer")]
         keys = sorted(set(k for k, _ in want_h) | set(k for k, _ in hdrs))
         for k in keys:
